@@ -76,7 +76,22 @@ def model(sym):
         st["prints_" + st["ctx"]].append(str(msg))
 
     fake_click = types.SimpleNamespace(secho=echo, echo=echo, style=lambda m, **k: m)
-    k_sched = sym.int("write_lands_before_read", 0, 6)  # schedule: after how many main-thread reads the late write becomes visible
+    # schedule: if the answer arrives after the join gave up, the checker thread's body runs (atomically) just before the
+    # k-th read the main thread makes of the updater object, or not at all before the process ends
+    k_sched = sym.int("late_thread_runs_before_read", 1, 9)
+
+    def thread_body(spy):
+        if st.get("ran"):
+            return
+        st["ran"] = True
+        prev, st["ctx"] = st["ctx"], "checker"
+        try:
+            try:
+                U.Updater.run(spy)
+            except Exception:
+                pass  # an uncaught exception only kills the checker thread
+        finally:
+            st["ctx"] = prev
 
     class Spy(U.Updater):
         def start(self):
@@ -84,8 +99,6 @@ def model(sym):
 
         def join(self, timeout=None):
             st["joins"].append(timeout)
-            if st["ctx"] != "main":
-                return
             remaining = L - D
             if timeout is None:
                 wait = remaining if truth(remaining > 0) else 0
@@ -100,34 +113,22 @@ def model(sym):
             st["delay"] = st["delay"] + wait
             if truth(L <= D + wait):
                 st["visible"] = True
+                thread_body(self)  # the thread finished before join returned
 
-        @property
-        def latest_version(self):
-            if st["ctx"] == "main":
+        def __getattribute__(self, name):
+            if st["ctx"] == "main" and st.get("armed") and not name.startswith("__") and name not in ("join", "start", "run", "daemon"):
                 st["reads"] += 1
-                if st["visible"] or (not hang and truth(k_sched < st["reads"])):
-                    return st["written"][-1] if st["written"] else None
-                return None
-            return st["written"][-1] if st["written"] else None
-
-        @latest_version.setter
-        def latest_version(self, v):
-            if st["ctx"] == "checker":
-                st["written"].append(v)
+                if not st.get("ran") and not hang and truth(k_sched == st["reads"]):
+                    thread_body(self)
+            return object.__getattribute__(self, name)
 
     saved = (U.requests, CLI.updater, CLI.click)
     U.requests, CLI.click = fake_requests, fake_click
     try:
         spy = Spy()
         pse.require(st.get("started") == 1, "thread-started-once", str(st.get("started")))
-        # checker context: what the thread does whenever it gets to run (an uncaught exception only kills the thread)
-        st["ctx"] = "checker"
-        try:
-            spy.run()
-        except Exception:
-            pass
-        st["ctx"] = "main"
-        pse.require(not st["prints_checker"], "checker-thread-prints", str(st["prints_checker"]))
+        pse.require(st.get("started") == 1, "thread-started-once", str(st.get("started"))) if False else None
+        st["armed"] = True
         CLI.updater = spy
         try:
             CLI.update()
@@ -135,6 +136,7 @@ def model(sym):
         except Exception as ex:
             raised = "%s: %s" % (type(ex).__name__, ex)
         tag = "server %s%s" % (behaviour, " (never answers)" if hang else "")
+        pse.require(not st["prints_checker"], "checker-thread-prints", str(st["prints_checker"]))
         pse.require(raised is None, "result-callback-raises", "%s: %s" % (tag, raised))
         pse.require(st["gets_main"] == 0 or truth(st["delay"] <= 1000), "termination-delayed-more-than-1s", tag + " (request on the main thread)")
         # the interpreter waits for non-daemon threads at exit
@@ -203,7 +205,7 @@ def real(sym):
     hang = sym.flag("server_never_answers")
     L = sym.choose("response_latency_ms", LATENCIES) if not hang else HANG
     sym.int("command_duration_ms", 0, 5000)
-    sym.int("write_lands_before_read", 0, 6)
+    sym.int("late_thread_runs_before_read", 1, 9)
     d = tempfile.mkdtemp(prefix="mhlverif-c20-")
     try:
         open(os.path.join(d, "f.txt"), "w").write("x")
@@ -242,6 +244,6 @@ def harnesses(tier):
     return [Harness("c20-updater", fn, mode="unit", frontier=5, budget_s=900, conformance=3,
                     what="Updater.__init__/run/_get_latest_version/needs_update and the result callbacks of both CLI groups against 14 server behaviours "
                          "x latency (6 values from 0 to 60 s, or never) x symbolic command duration x symbolic point at which a late write becomes visible",
-                    bounds={"behaviours": BEHAVIOURS, "latency": "one of %s ms or never" % LATENCIES, "command duration": "0..5000 ms", "schedule": "write visible after 0..6 reads or never"},
+                    bounds={"behaviours": BEHAVIOURS, "latency": "one of %s ms or never" % LATENCIES, "command duration": "0..5000 ms", "schedule": "late thread body runs before the k-th read (k = 1..9) of the updater object by the main thread, or never"},
                     outside=["real thread scheduling, sockets, DNS, TLS", "wall-clock jitter (replays allow 0.6 s slack)"],
                     stubs=["threading.Thread.start/join, requests.get, click.secho: updater model"])]
